@@ -17,7 +17,7 @@ From GV Require Import Gen.LexTables.
 Import ListNotations.
 Local Open Scope N_scope.
 
-Definition bytes := list N.
+Notation bytes := (list N) (only parsing).
 
 Inductive outcome (A : Type) : Type :=
 | Val (a : A)
@@ -159,7 +159,7 @@ Definition to_upper (l : bytes) : bytes := upper_go (length l) l.
 (* ---------------------------------------------------------------------------------------------- *)
 (* Position, cursor                                                                               *)
 
-Definition cur : Type := (bytes * N)%type.
+Notation cur := (list N * N)%type (only parsing).
 
 (* moving the cursor forward by n bytes: t.pos.Index += n *)
 Definition adv (c : cur) (n : nat) : cur := (skipn n (fst c), snd c + N.of_nat n).
@@ -251,7 +251,7 @@ Section WithInput.
             let c1 := adv_rune c sz in
             if r =? 42 then
               match fst c1 with
-              | [] => block_body f c1
+              | [] => Val None           (* loop condition fails: end of input inside the comment *)
               | _ =>
                   let '(nr, ns) := decode_rune (fst c1) in
                   if nr =? 47 then Val (Some (firstn sz (fst c) ++ firstn ns (fst c1), adv_rune c1 ns))
